@@ -62,6 +62,10 @@ def m_td(ex, st, callee, args, dest_ty, frame, depth):
     if name in ("union", "merge_overwrite"):
         b_uid, _ = _uid(ex, st, args[1])
         return [(st, Outcome("ret", _new(ex, st, f"{name}({a_uid},{b_uid})", z3.Or(fa, F(ex, st, args[1])))))]
+    if name in ("returns", "kind", "returns_mut", "kind_mut"):
+        return [(st, Outcome("ret", ex.fresh(dest_ty, f"{name}({a_uid})")))]
+    if name in ("is_never", "is_null", "is_boolean", "is_bytes", "is_integer", "is_float"):
+        return [(st, Outcome("ret", Prim("bool", z3.Bool(f"{name}({a_uid})"))))]
     if name in ("with_kind", "with_returns", "impure", "pure", "upgrade_undefined", "or_null", "or_bytes"):
         return [(st, Outcome("ret", _new(ex, st, f"{name}({a_uid})", fa)))]
     if name == "fallible_unless":
@@ -151,6 +155,81 @@ def obligations(S):
     if not want <= seen:
         raise Unencodable(f"Op::type_info: opcodes seen {sorted(seen)} (expected all of {sorted(want)})")
     return obls, sorted(set(fns))
+
+
+def block_obligations(S, bounds=None):
+    """Block::type_info: a member that can run (no member before it is never-typed) and is fallible makes the block
+    fallible -- including a member that is itself never-typed (`{ 10 / .d; return 1 }` nested in an outer block)."""
+    bounds = bounds or {"block": 3}
+    obls, fns = [], []
+    f = S.method("Expression", "Block", "type_info")
+    fns.append((f.name, f.text_hash))
+    n_checked = 0
+    for n in range(1, bounds.get("block", 3) + 1):
+        ex = S.executor(oracles=ORACLES, opaque=OPAQUE + [r"LocalEnv::apply_child_scope$", r"^<LocalEnv as Clone>::clone$", r"merge_keep$", r"^<value::kind::Kind as Clone>::clone$"])
+        ex.feas_timeout_ms = 200
+        st = State()
+        items = []
+        for i in range(n):
+            c = f"self.inner[{i}]"
+            st.heap[c] = ex.fresh("compiler::expression::Expr", f"elem{i}")
+            items.append(c)
+        st.heap["*self"] = Agg("compiler::expression::block::Block", {0: Seq("Vec<Expr>", items, "slice")}, origin="self*")
+        paths = ex.run(f, [Ref("&block::Block", "*self", ()), ex.fresh("&TypeState", "state0")], st)
+        for n_, h in ex.stats["fns_entered"].items():
+            fns.append((n_, h))
+        for pi, p in enumerate(paths):
+            role = f"C02:Block::type_info(n={n}):fallible-member-that-can-run-makes-the-block-fallible"
+            if p.outcome.kind != "ret":
+                o = Obl(f"C02:Block::type_info:{p.outcome.kind}", {"C02"}, f"C02:Block::type_info:{p.outcome.kind}#n{n}#path{pi}", p, z3.BoolVal(False), {"msg": p.outcome.msg})
+                o.ex = ex
+                obls.append(o)
+                continue
+            fr = F(ex, p.st, ex.agg_field(p.st, p.outcome.value, 1, TD))
+            typed = {}
+            for e in p.st.trace:
+                if e["kind"] in ("apply_type_info", "type_info"):
+                    typed.setdefault(e["child"], f"typedef#{e['n']}[{e['child']}]")
+            pcs = [str(c).replace("\n", " ") for c in p.st.pc]
+
+            def never(i):
+                """True / False / None: is member i never-typed on this path?"""
+                lab = typed.get(f"self.inner[{i}]")
+                if lab is None:
+                    return None
+                for c in pcs:
+                    k = 0
+                    while c.startswith("Not(") and c.endswith(")"):
+                        c, k = c[4:-1], k + 1
+                    if c.startswith("is_never(") and lab in c:
+                        return k % 2 == 0
+                return None
+            conj = []
+            for i in range(n):
+                lab = typed.get(f"self.inner[{i}]")
+                if lab is None:
+                    conj.append(z3.BoolVal(False))       # every member is typed
+                    continue
+                if all(never(j) is False for j in range(i)):
+                    conj.append(z3.Implies(z3.Bool(f"fallible({lab})"), fr))
+            n_checked += 1
+            o = Obl(role, {"C02"}, f"{role}#path{pi}", p, z3.And(conj) if conj else z3.BoolVal(True),
+                    {"result_fallible": str(z3.simplify(fr))[:200], "never": [never(i) for i in range(n)]})
+            o.ex = ex
+            obls.append(o)
+    if not n_checked:
+        raise Unencodable("Block::type_info: no returning path (vacuous)")
+    return obls, sorted(set(fns))
+
+
+def block_battery():
+    N = {"accepted_never_fails": True}
+    return [
+        ({"source": ".early = { { 10 / .d; return \"early\" } } == \"early\"\n", "event": {"d": 0}}, N),
+        ({"source": ".r = { { to_int(.count); return 1 } } == 1\n", "event": {"count": "x"}}, N),
+        ({"source": ".r = { if .f == true { 10 / .d; return 1 } else { return 2 } } == 1\n", "event": {"f": True, "d": 0}}, N),
+        ({"source": ".r = { 1; 2 } == 2\n", "event": {}}, {"outcome": "ok", "event_eq": {"r": {"Boolean": True}}}),
+    ]
 
 
 def battery():
